@@ -18,12 +18,14 @@ CONSTANTS
   KeepDead = FALSE
   Miu <- MiuAB
   Lens = {1}
+  InsertLast = FALSE
   HdrInMiu = FALSE
 INVARIANT OneAddrPerSocket
 INVARIANT NoDoubleAlloc
 INVARIANT RangesRespected
 INVARIANT FreedOnLastClose
 INVARIANT Datagram
+INVARIANT LiveFirst
 PROPERTY ResolveRight
 PROPERTY InUseRight
 PROPERTY ConnectByName
